@@ -183,6 +183,7 @@ func (c17) Gen(r *sim.Rand, c *sim.Case, tier string) {
 	c.SchedSeed = r.Uint64()
 	c.Order = orderPolicy(r)
 	c.OrderSeed = r.Uint64()
+	c.Cfg["preempt"] = preemptMean(r)
 }
 
 // ---- execution -----------------------------------------------------------------------
@@ -722,6 +723,7 @@ func (p c17) Exec(c *sim.Case, env *Env) []sim.Violation {
 
 	// ---- tasks
 	lockStats := simrt.InstallLocks(s)
+	simrt.InstallPoints(s, c.C("preempt"))
 	evs := make([][]c17ev, ntasks)
 	stats := make([]*sim.Stats, ntasks)
 	tmplByTask := make([][]*c17tmpl, ntasks)
@@ -771,6 +773,8 @@ func (p c17) Exec(c *sim.Case, env *Env) []sim.Violation {
 	}
 	env.Stats.ProbeN("context_switches", int64(s.Switches))
 	env.Stats.ProbeN("lock_yields", lockStats.Acquires)
+	env.Stats.ProbeN("preemptions_inside_library_calls", int64(s.Preemptions))
+	env.Stats.ProbeN("preemption_points_passed", s.Points)
 	env.Stats.ProbeN("lock_blocks", lockStats.Blocks)
 	env.Stats.ProbeN("keys_calls_with_choice", ord.Calls)
 	env.Log.Event("sched %v", s.Trace)
